@@ -40,6 +40,7 @@ import (
 	"github.com/btcsuite/btcd/wire/v2"
 	"github.com/lightninglabs/neutrino"
 	"github.com/lightninglabs/neutrino/banman"
+	"github.com/lightninglabs/neutrino/chainsync"
 	"github.com/lightninglabs/neutrino/headerfs"
 	"github.com/lightninglabs/neutrino/query"
 
@@ -795,9 +796,13 @@ finish:
 	for _, id := range conn {
 		connIDs = append(connIDs, id)
 	}
-	res.term = fmt.Sprintf("CL %s\n  %s %s %s %d %s %s\n  [\n  %s]", L.in.htab(),
+	hard := "[]"
+	if sp.HardKind != "" {
+		hard = fmt.Sprintf("[(%d, %d)]", sp.HardAt, L.in.tok(*hardValue(sp)))
+	}
+	res.term = fmt.Sprintf("CL %s\n  %s %s %s %d %s %s %s\n  [\n  %s]", L.in.htab(),
 		runsOf(L.in.toks(ch0.hashes)), runsOf(L.in.toks(fx.big.fheaders[:sp.FTip+1])), runsOf(L.in.toks(ch0.fhashes)),
-		L.in.tok(fx.gfh), zlist(connIDs), zlist(sp.Honest), strings.Join(evs, ";\n  "))
+		L.in.tok(fx.gfh), hard, zlist(connIDs), zlist(sp.Honest), strings.Join(evs, ";\n  "))
 	res.sp.Obs = strings.Join(kinds, "")
 	res.sig = fmt.Sprintf("L:t%d:f%d:p%d:l%s:%s", sp.Tip/1000, sp.FTip/500, len(sp.Peers), lieSig(sp), strings.Join(kinds, ""))
 	res.nontriv = strings.ContainsAny(res.sp.Obs, "rR") && nrounds >= 2
@@ -973,6 +978,12 @@ func mainLoop(a c.Args, replay *spec) {
 		}
 		for id := 1; id <= n; id++ {
 			specs = append(specs, genL(id, a.Seed, c.Rng(a.Seed, 7000000+id)))
+		}
+	}
+	for _, sp := range specs {
+		if sp.HardKind != "" {
+			chainsync.VerifSetFilterHeaderCheckpoints(caseParams(sp.ID).Net,
+				map[uint32]*chainhash.Hash{uint32(sp.HardAt): hardValue(sp)})
 		}
 	}
 	results := make([]result, len(specs))
